@@ -448,11 +448,13 @@ func evalBehaviour(files map[string]string, meta map[string]*instMeta) ([]findin
 			addFinding(v.check, "behaviour", v.file, fmt.Sprintf("%s %q, fix %q changes the behaviour of the function:\n%s\noriginal:\n%s\npatched:\n%s", v.check, v.diagMsg, v.fixMsg, diffText[v.name], origSrc, v.patched))
 		case !done[v.name]:
 			if runErr != nil && ctx.Err() != nil {
-				addFinding(v.check, "behaviour", v.file, fmt.Sprintf("%s fix %q: the comparison program did not finish within 60s while running (or before reaching) %s\noriginal:\n%s\npatched:\n%s", v.check, v.fixMsg, v.name, origSrc, v.patched))
+				// a time limit is never a verdict: the original function may be the one that does not
+				// return (a generator slip), and a loaded machine can be slow; counted, case skipped
+				ev.Count("comparison_program_over_time_limit_inconclusive", 1)
+				return out, fmt.Sprintf("%s fix %q: the comparison program did not finish within 60s while running (or before reaching) %s (inconclusive)", v.check, v.fixMsg, v.name)
 			} else {
 				return out, fmt.Sprintf("comparison program ended early: %v\n%s", runErr, stderr.String())
 			}
-			return out, ""
 		default:
 			ev.Count("fix_behaviour_equal", 1)
 		}
